@@ -915,6 +915,13 @@ class ODLEncoder(PVLEncoder):
         and operators can be present in Units Expressions.
         """
 
+        for c in self.grammar.format_effectors + ("\t",):
+            if c in value:
+                raise ValueError(
+                    f'The value, "{value!r}", has a line break or tab in it, '
+                    "which cannot be part of an ODL Units Expression."
+                )
+
         # if self.is_identifier(value.strip('*/()-')):
         if self.decoder.is_identifier(re.sub(r"[\s*/()-]", "", value)):
 
